@@ -17,6 +17,7 @@ func strAxioms(features map[string]bool, quant bool) []string {
 	var ax []string
 	// length is non-negative: instantiated by pattern
 	ax = append(ax, "(forall ((s Str)) (! (>= (s.len s) 0) :pattern ((s.len s))))")
+	ax = append(ax, "(forall ((c Int)) (! (and (= (s.len (s.byte c)) 1) (= (s.at (s.byte c) 0) c)) :pattern ((s.byte c))))")
 	if features["strcat"] {
 		ax = append(ax, "(forall ((a Str) (b Str)) (! (= (s.len (s.cat a b)) (+ (s.len a) (s.len b))) :pattern ((s.cat a b))))")
 		ax = append(ax, "(forall ((a Str) (b Str) (i Int)) (! (= (s.at (s.cat a b) i) (ite (< i (s.len a)) (s.at a i) (s.at b (- i (s.len a))))) :pattern ((s.at (s.cat a b) i))))")
@@ -37,6 +38,15 @@ func strAxioms(features map[string]bool, quant bool) []string {
 		ax = append(ax, "(forall ((a Str) (b Str)) (! (=> (and (= (s.len a) 0) (> (s.len b) 0)) (s.lt a b)) :pattern ((s.lt a b))))")
 		ax = append(ax, "(forall ((a Str) (b Str)) (! (=> (= (s.len b) 0) (not (s.lt a b))) :pattern ((s.lt a b))))")
 		ax = append(ax, "(forall ((a Str) (b Str)) (! (=> (and (= (s.len a) 0) (= (s.len b) 0)) (= a b)) :pattern ((s.len a) (s.len b))))")
+	}
+	if features["strlt"] && features["strcat"] {
+		// k+[0] is the immediate successor of k (proved from the witness definition: theory.bytestrings/lemma[successor...])
+		ax = append(ax, "(forall ((k Str) (x Str)) (! (= (s.lt k x) (not (s.lt x (s.cat k (s.byte 0))))) :pattern ((s.lt x (s.cat k (s.byte 0))))))")
+		ax = append(ax, "(forall ((k Str) (x Str)) (! (= (s.lt k x) (not (s.lt x (s.cat k (s.byte 0))))) :pattern ((s.cat k (s.byte 0)) (s.lt k x))))")
+		ax = append(ax, "(forall ((k Str)) (! (s.lt k (s.cat k (s.byte 0))) :pattern ((s.cat k (s.byte 0)))))")
+	}
+	if features["strlt"] && features["strprefix"] {
+		ax = append(ax, "(forall ((p Str) (s Str)) (! (=> (s.prefix p s) (not (s.lt s p))) :pattern ((s.prefix p s))))")
 	}
 	if features["strprefix"] {
 		ax = append(ax, "(forall ((p Str) (s Str)) (! (=> (s.prefix p s) (<= (s.len p) (s.len s))) :pattern ((s.prefix p s))))")
